@@ -74,6 +74,11 @@ def scratch_root():
     return tempfile.gettempdir()
 
 
+def case_label(case):
+    return ' '.join(f'{k}={str(v)[:40]}' for k, v in case.items()
+                    if k not in ('patterns', 'counts'))[:200]
+
+
 def case_digest(obj):
     return hashlib.sha1(
         json.dumps(obj, sort_keys=True, default=str).encode()).hexdigest()[:16]
@@ -286,8 +291,11 @@ class Runner(object):
         violations = []       # (case, violation)
         known_hit = {}
         max_samples = 6
+        slow = []
         for case, res in self.run_cases(cases):
             n_cases += 1
+            slow.append((res.get('_wall', 0.0), case_label(case)))
+            slow = sorted(slow, reverse=True)[:5]
             evaluations += int(res.get('evaluations', 1))
             for k in res.get('keys', []):
                 keys.add(k if isinstance(k, (str, int)) else json.dumps(k))
@@ -351,6 +359,9 @@ class Runner(object):
             print(f"VIOLATION property={self.prop} replay={info['path']}")
 
         wall = time.time() - t0
+        if os.environ.get('VERIF_VERBOSE'):
+            for w, lab in slow:
+                print(f'  slow case {w:7.1f}s {lab}')
         if replay_path is None:
             self.write_evidence(
                 evaluations=evaluations, n_cases=n_cases, keys=keys,
@@ -452,6 +463,18 @@ def close_leaked_h5():
     """
     import gc
     gc.collect()
+    try:
+        # manager server processes the library leaves running inherit open
+        # HDF5 descriptors (and their file locks)
+        import multiprocessing
+        for child in multiprocessing.active_children():
+            try:
+                child.terminate()
+                child.join(2)
+            except Exception:
+                pass
+    except Exception:
+        pass
     try:
         import h5py
         for fid in h5py.h5f.get_obj_ids(types=h5py.h5f.OBJ_FILE):
